@@ -13,6 +13,8 @@ def main():
 	ctx.workdir = Path(spec['workdir'])
 	ctx.workdir.mkdir(parents=True, exist_ok=True)
 	rc = 0
+	import faulthandler
+	faulthandler.dump_traceback_later(int(os.environ.get('VERIF_DUMP_AFTER', '240')), repeat=False, file=sys.stderr)
 	try:
 		ov = os.environ.get('VERIF_OVERLAY')
 		if ov:
